@@ -9,9 +9,10 @@
              spec = a^(±value of the form). -/
 import Driver.C12
 import RelicVerif.Gen.PpExp
+import RelicVerif.Model.PpMiller
 
 namespace Driver.C04
-open Driver Relic.Spec.Tower Relic.Model.PpExp
+open Driver Relic.Spec.Tower Relic.Model.PpExp Relic.Model.PpMiller
 
 structure Env where
   base : C12.Env
@@ -118,6 +119,218 @@ def handle (e : Env) (op : String) (args : List String) (got : String) : Option 
     some { model := d.fmt (expCycSps o a b neg), spec := [d.fmt specv],
            tags := ["expsps." ++ v, "expsps." ++ sg, if b.isEmpty then "len0" else if b.head? == some 0 then "b0=0" else "b0!=0",
                     if asc then "ascending" else "not-ascending", if b.any (· < 0) then "has-neg" else "all-pos"] }
+  | _, _ => none
+
+/-! ### the pairing maps: Miller-loop models (Model/PpMiller.lean) executed over the curve E(Fp12) with affine lines
+
+Everything happens on E : y² = x³ + a·x + b over Fp12 in affine coordinates with the driver's generic tower arithmetic: G1 points
+are embedded coefficient-wise, G2 points through the untwisting map ψ(x', y') = (x'·u², y'·u³), u = w (D-type twist) or w⁻¹ (M-type),
+whichever puts ψ(G₂) on E.  The line functions are the textbook chord and tangent; the library's projective / sparse lines differ
+from them by factors in proper subfields, which the final exponentiation removes — so the comparison is made AFTER the final
+exponentiation (itself the generated chain), value for value. -/
+
+abbrev Pt12 := Option (List Nat × List Nat)
+
+/-- inverse in the tower by the norm formulas of a quadratic / cubic level (recursively), CHECKED against the definition
+    (a · a⁻¹ = 1) and replaced by the Gauss–Jordan inverse of the specification when the check fails -/
+def invTower (p : Nat) : List Level → List Nat → List Nat
+  | [], a => [Relic.Model.Formula.invEuclid p (a.headD 0)]
+  | l :: ls, a =>
+    let d : Desc := { p := p, levels := l :: ls }
+    let b : Desc := { p := p, levels := ls }
+    let n := Relic.Spec.Tower.dim ls
+    let cs := chunks n l.deg a
+    let c := l.nr
+    match l.deg, cs with
+    | 2, [a0, a1] =>
+      let t := b.sub (b.mul a0 a0) (b.mul c (b.mul a1 a1))
+      let ti := invTower p ls t
+      b.mul a0 ti ++ b.neg (b.mul a1 ti)
+    | 3, [a0, a1, a2] =>
+      let A := b.sub (b.mul a0 a0) (b.mul c (b.mul a1 a2))
+      let B := b.sub (b.mul c (b.mul a2 a2)) (b.mul a0 a1)
+      let C := b.sub (b.mul a1 a1) (b.mul a0 a2)
+      let N := b.add (b.mul a0 A) (b.mul c (b.add (b.mul a2 B) (b.mul a1 C)))
+      let ni := invTower p ls N
+      b.mul A ni ++ b.mul B ni ++ b.mul C ni
+    | _, _ => (d.inv? a).getD d.zero
+
+def inv12 (d : Desc) (a : List Nat) : List Nat :=
+  let i := invTower d.p d.levels (d.canon a)
+  if d.isOne (d.mul a i) then i else (d.inv? a).getD d.zero
+
+structure E12 where
+  d : Desc
+  a : List Nat
+  b : List Nat
+
+def E12.onCurve (e : E12) : Pt12 → Bool
+  | none => true
+  | some (x, y) => e.d.eq (e.d.mul y y) (e.d.add (e.d.mul x (e.d.mul x x)) (e.d.add (e.d.mul e.a x) e.b))
+
+def E12.neg (e : E12) : Pt12 → Pt12
+  | none => none
+  | some (x, y) => some (x, e.d.neg y)
+
+/-- chord / tangent through t and q evaluated at p, and t + q; the vertical line when t + q = O -/
+def E12.line (e : E12) (t q p : Pt12) : List Nat × Pt12 :=
+  let d := e.d
+  match t, q, p with
+  | some (x1, y1), some (x2, y2), some (xp, yp) =>
+    let same := d.eq x1 x2
+    if same && !(d.eq y1 y2 && !d.isZero y1) then (d.sub xp x1, none) else
+    let lam := if same then d.mul (d.add (d.mul (d.ofNat 3) (d.mul x1 x1)) e.a) (inv12 d (d.add y1 y1))
+               else d.mul (d.sub y2 y1) (inv12 d (d.sub x2 x1))
+    let l := d.sub (d.sub yp y1) (d.mul lam (d.sub xp x1))
+    let x3 := d.sub (d.sub (d.mul lam lam) x1) x2
+    let y3 := d.sub (d.mul lam (d.sub x1 x3)) y1
+    (l, some (x3, y3))
+  | none, q, _ => (d.one, q)
+  | t, none, _ => (d.one, t)
+  | _, _, none => (d.one, none)
+
+def milOps (e : E12) : MilOps (List Nat) Pt12 Pt12 where
+  mul := e.d.mul
+  sqr := e.d.sqr
+  dbl := fun t p => e.line t t p
+  add := fun t q p => e.line t q p
+  neg := e.neg
+
+structure PEnv where
+  env : Env
+  e12 : E12
+  /-- u with ψ(x', y') = (x'·u², y'·u³) -/
+  u : List Nat
+
+def embed2 (d12 : Desc) (a : List Nat) : List Nat := d12.canon (a ++ List.replicate (d12.dim - a.length) 0)
+
+def untwist (d : Desc) (u : List Nat) : Relic.Spec.CurveX.PointX → Pt12
+  | none => none
+  | some (x, y) =>
+    let u2 := d.mul u u
+    some (d.mul (embed2 d x) u2, d.mul (embed2 d y) (d.mul u2 u))
+
+def embed1 (d : Desc) : Relic.Spec.Curve.Point → Pt12
+  | none => none
+  | some (x, y) => some (d.ofNat x, d.ofNat y)
+
+def mkPEnv (e : Env) : Option PEnv :=
+  let d := e.base.d12
+  let e12 : E12 := { d := d, a := d.ofNat e.base.c1.a, b := d.ofNat e.base.c1.b }
+  let w := d.gen
+  let cands := [w, inv12 d w]
+  (cands.find? fun u => e.base.e2.g != none && e12.onCurve (untwist d u e.base.e2.g)).map fun u => { env := e, e12 := e12, u := u }
+
+def mapOps (pe : PEnv) : MapOps (List Nat) Pt12 :=
+  let e := pe.env
+  let d := e.base.d12
+  let o := descOps d e.tbl
+  { one := d.one, invCyc := d.conj, inv := inv12 d,
+    finalExp := fun f => Relic.Gen.PpExp.pp_exp_k12 o e.fam e.par (e.x < 0) e.sps f,
+    frb := fun t i => match t with
+      | none => none
+      | some (x, y) => some (d.frobeniusViaPow e.tbl.get x i, d.frobeniusViaPow e.tbl.get y i) }
+
+def nafOf (k : Nat) : List Int := (Relic.Model.Rec.recNaf (Relic.Model.Rec.bitLen k + 2) k 2).getD []
+
+/-- the model of pp_map_(sim_)<variant>_k12 on pairs (P, Q): the identity filter of the C code, then the loops -/
+def pairingModel (pe : PEnv) (v : String) (pqs : List (Relic.Spec.Curve.Point × Relic.Spec.CurveX.PointX)) : Option (List Nat) :=
+  let e := pe.env
+  let d := e.base.d12
+  let o := milOps pe.e12
+  let m := mapOps pe
+  let live := pqs.filter fun (p, q) => p != none && q != none
+  let qp := live.map fun (p, q) => (untwist d pe.u q, embed1 d p)
+  let pq := live.map fun (p, q) => (embed1 d p, untwist d pe.u q)
+  match v with
+  | "oatep" =>
+    let a : Int := if e.fam == "EP_BN" then 6 * e.x + 2 else e.x
+    mapOatep o m e.fam e.x (nafOf a.natAbs) qp
+  | "tatep" => mapTatep o m e.base.n pq
+  | "weilp" => mapWeilp o o m e.base.n (nafOf (e.base.n - 1)) pq qp
+  | _ => none
+
+def handleMap (pe : PEnv) (op : String) (args : List String) (got : String) : Option Verdict :=
+  let e := pe.env
+  let d := e.base.d12
+  let d2 := e.base.e2.c.d
+  -- the spec column: the properties of the value (order r, non-trivial unless an identity operand) — bilinearity is judged on the
+  -- ppb lines of the same stream; here the MODEL column carries the weight
+  let judge := fun (v : String) (pqs : List (Relic.Spec.Curve.Point × Relic.Spec.CurveX.PointX)) (n : Nat) =>
+    let v' := if v == "map" then ((e.base.kv.lookup "ppmap").getD "?").toLower else v
+    let model := match pairingModel pe v' pqs with
+      | some r => d.fmt r
+      | none => "<no model for variant " ++ v ++ ">"
+    let specOk := match d.parse? got with
+      | some r => d.isOne (d.pow r e.base.n)
+      | none => false
+    some { model := model, spec := [if specOk then got else "<element of order dividing r>"],
+           tags := ["ppm." ++ v, "ppm.n" ++ toString n, "ppm.live" ++ toString (pqs.filter fun (p, q) => p != none && q != none).length] ++ branchTags e : Verdict }
+  match op, args with
+  | "ppm", [v, p, q] => do
+    let p ← C03.parsePoint p
+    let q ← C11.parsePoint d2 q
+    judge v [(p, q)] 1
+  | "ppms", v :: n :: rest => do
+    let n ← n.toNat?
+    let rec pairs : List String → Option (List (Relic.Spec.Curve.Point × Relic.Spec.CurveX.PointX))
+      | p :: q :: r => do
+        let p ← C03.parsePoint p
+        let q ← C11.parsePoint d2 q
+        some ((p, q) :: (← pairs r))
+      | [] => some []
+      | _ => none
+    let pqs ← pairs rest
+    if pqs.length != n then none else judge v pqs n
+  | _, _ => none
+
+/-- `lfn`: the line functions called directly (class C: no model of the projective lazy-reduction formulas).  Judged against the
+    specification: the updated running point is the doubled / added point of the curve law, and the sparse Fp12 element is the affine
+    chord / tangent through the points evaluated at the other argument UP TO A FACTOR IN A PROPER SUBFIELD of Fp12 (ρ^(p⁴) = ρ or
+    ρ^(p⁶) = ρ) — the factors the final exponentiation removes. -/
+def handleLine (pe : PEnv) (op : String) (args : List String) (got : String) : Option Verdict :=
+  let e := pe.env
+  let d := e.base.d12
+  let d2 := e.base.e2.c.d
+  let c1 := e.base.c1
+  let c2 := e.base.e2.c
+  let tbl := e.tbl.get
+  let judge := fun (v : String) (affLine : List Nat) (expPt : String) =>
+    match got.splitOn " " with
+    | [ls, pt] =>
+      match d.parse? ls with
+      | some l =>
+        let rho := d.mul l (inv12 d affLine)
+        let inFp2 := d.eq (d.frobeniusViaPow tbl rho 2) rho
+        let inFp4 := d.eq (d.frobeniusViaPow tbl rho 4) rho
+        let inFp6 := d.eq (d.frobeniusViaPow tbl rho 6) rho
+        let okL := !d.isZero l && !d.isZero affLine && (inFp4 || inFp6)
+        let okP := pt == expPt
+        some { model := got, spec := [if okL && okP then got else if okP then "<line value = subfield factor x affine line>" else "<line> " ++ expPt],
+               tags := ["lfn." ++ v, "lfn.factor." ++ (if inFp2 then "fp2" else if inFp4 then "fp4" else if inFp6 then "fp6" else "none")] : Verdict }
+      | none => some { model := got, spec := ["<line> " ++ expPt], tags := ["lfn.parse"] }
+    | _ => some { model := got, spec := ["<line> " ++ expPt], tags := ["lfn.parse"] }
+  match op, args with
+  | "lfn", ["dbl", t, p] => do
+    let t ← C11.parsePoint d2 t
+    let p ← C03.parsePoint p
+    let tt := untwist d pe.u t
+    judge "dbl" (pe.e12.line tt tt (embed1 d p)).1 (C11.fmtPoint d2 (Relic.Spec.CurveX.add c2 t t))
+  | "lfn", ["add", t, q, p] => do
+    let t ← C11.parsePoint d2 t
+    let q ← C11.parsePoint d2 q
+    let p ← C03.parsePoint p
+    judge "add" (pe.e12.line (untwist d pe.u t) (untwist d pe.u q) (embed1 d p)).1 (C11.fmtPoint d2 (Relic.Spec.CurveX.add c2 t q))
+  | "lfn", ["dbll", t, q] => do
+    let t ← C03.parsePoint t
+    let q ← C11.parsePoint d2 q
+    let tt := embed1 d t
+    judge "dbll" (pe.e12.line tt tt (untwist d pe.u q)).1 (C03.fmtPoint (Relic.Spec.Curve.add c1 t t))
+  | "lfn", ["addl", t, p, q] => do
+    let t ← C03.parsePoint t
+    let p ← C03.parsePoint p
+    let q ← C11.parsePoint d2 q
+    judge "addl" (pe.e12.line (embed1 d t) (embed1 d p) (untwist d pe.u q)).1 (C03.fmtPoint (Relic.Spec.Curve.add c1 t p))
   | _, _ => none
 
 end Driver.C04
